@@ -108,6 +108,13 @@ pub fn input_for(c: &Case, pk: PKind) -> Input {
 
 pub fn check_case(c: &Case) -> PResult {
     for pk in [PKind::Binary, PKind::BinaryLe, PKind::Compact] {
+        check_case_pk(c, pk)?;
+    }
+    Ok(())
+}
+
+pub fn check_case_pk(c: &Case, pk: PKind) -> PResult {
+    {
         let inp = input_for(c, pk);
         let lim = limits_for(inp.bytes.len());
         let tt = inp.tt;
@@ -181,7 +188,80 @@ pub fn check_case(c: &Case) -> PResult {
     Ok(())
 }
 
+/// Child mode of the enumerated container headers (see `run`).
+pub fn enum_child() -> i32 {
+    use std::sync::atomic::Ordering;
+    vcore::evidence::quiet_panics();
+    static CURRENT: std::sync::Mutex<String> = std::sync::Mutex::new(String::new());
+    static BASE: std::sync::atomic::AtomicUsize = std::sync::atomic::AtomicUsize::new(0);
+    std::thread::spawn(|| loop {
+        std::thread::sleep(std::time::Duration::from_millis(20));
+        let used = vrt::alloc::GLOBAL_TOTAL.load(Ordering::Relaxed).saturating_sub(BASE.load(Ordering::Relaxed));
+        if used > (256 << 20) {
+            let cur = CURRENT.lock().map(|c| c.clone()).unwrap_or_default();
+            println!("ENUM-RUNAWAY {}", cur);
+            std::process::exit(3);
+        }
+    });
+    let mut n = 0u64;
+    for pk in [PKind::Binary, PKind::BinaryLe, PKind::Compact] {
+        for kind in [TT::List, TT::Set, TT::Map] {
+            for code in 0u16..=255 {
+                for count in [1u32, 1 << 16, 1 << 20, (1 << 24) + 1, i32::MAX as u32] {
+                    let mut bytes: Vec<u8> = vec![];
+                    let put_varint = |bytes: &mut Vec<u8>, mut n: u32| {
+                        while n >= 0x80 {
+                            bytes.push((n as u8) | 0x80);
+                            n >>= 7;
+                        }
+                        bytes.push(n as u8);
+                    };
+                    match (pk, kind) {
+                        (PKind::Compact, TT::Map) => {
+                            put_varint(&mut bytes, count);
+                            bytes.push(code as u8);
+                        }
+                        (PKind::Compact, _) => {
+                            if code > 15 {
+                                continue;
+                            }
+                            bytes.push(0xF0 | code as u8);
+                            put_varint(&mut bytes, count);
+                        }
+                        (_, TT::Map) => {
+                            bytes.push(code as u8);
+                            bytes.push((code >> 1) as u8 | 1);
+                            bytes.extend_from_slice(&if pk == PKind::BinaryLe { count.to_le_bytes() } else { count.to_be_bytes() });
+                        }
+                        _ => {
+                            bytes.push(code as u8);
+                            bytes.extend_from_slice(&if pk == PKind::BinaryLe { count.to_le_bytes() } else { count.to_be_bytes() });
+                        }
+                    }
+                    bytes.extend_from_slice(&[0, 1, 0]);
+                    let len = bytes.len();
+                    let c = Case { src: Src::Random { tt: kind, bytes } };
+                    let js = serde_json::to_string(&c).unwrap_or_default();
+                    if let Ok(mut cur) = CURRENT.lock() {
+                        *cur = format!("{} {:?} CASE {}", len, pk, js);
+                    }
+                    BASE.store(vrt::alloc::GLOBAL_TOTAL.load(Ordering::Relaxed), Ordering::Relaxed);
+                    n += 1;
+                    if let Err(f) = check_case_pk(&c, pk) {
+                        println!("ENUM-FAIL {} {} CASE {}", f.key, vcore::evidence::truncate(&f.msg.replace('\n', " "), 300), js);
+                    }
+                }
+            }
+        }
+    }
+    println!("ENUM-DONE {}", n);
+    0
+}
+
 pub fn run(ctx: &Ctx) -> i32 {
+    if ctx.args.iter().any(|a| a == "--enum-child") {
+        return enum_child();
+    }
     vcore::evidence::quiet_panics();
     let rec = new_rec(ctx, "C09");
     {
@@ -251,6 +331,45 @@ pub fn run(ctx: &Ctx) -> i32 {
         if let Some((case, f)) = res {
             seen.insert(f.key.clone());
             report(ctx, &rec, "total", &case, &f);
+        }
+    }
+    // container headers with every element type byte and boundary counts, followed by a few
+    // bytes: skip and read must come back (error or value) without spinning over elements that
+    // are not there -- sync and async, every protocol. Runs in a child process whose monitor
+    // thread watches the volume of allocations: a decoder that iterates over a count it has not
+    // checked allocates per iteration and would not come back for minutes.
+    {
+        let exe = std::env::current_exe().unwrap();
+        if let Ok(o) = std::process::Command::new(exe).args(["C09", "--enum-child"]).output() {
+            let so = String::from_utf8_lossy(&o.stdout).to_string();
+            let n: u64 = so.lines().rev().find_map(|l| l.strip_prefix("ENUM-DONE ").and_then(|x| x.trim().parse().ok())).unwrap_or(0);
+            {
+                let mut r = rec.borrow_mut();
+                for i in 0..n.max(1) {
+                    r.case(fp(&("enum-header", i)), true, || json!("container header: every element type byte x counts {1, 2^16, 2^20, 2^24+1, i32::MAX} x list/set/map x protocol"));
+                    r.class("enumerated container header");
+                }
+            }
+            let mut reported = std::collections::BTreeSet::new();
+            for l in so.lines() {
+                let (key, rest) = if let Some(r) = l.strip_prefix("ENUM-FAIL ") {
+                    let mut it = r.splitn(2, ' ');
+                    (it.next().unwrap_or("enum-fail").to_string(), it.next().unwrap_or("").to_string())
+                } else if let Some(r) = l.strip_prefix("ENUM-RUNAWAY ") {
+                    ("alloc-runaway".to_string(), format!("more than 256 MiB were allocated while decoding this {}-byte input and the call had not returned: {}", r.split(' ').next().unwrap_or("?"), r))
+                } else {
+                    continue;
+                };
+                if reported.insert(key.clone()) && !ctx.findings.is_open("C09", &key) {
+                    let case_json = rest.rsplit(" CASE ").next().unwrap_or("").to_string();
+                    let case: serde_json::Value = serde_json::from_str(&case_json).unwrap_or(json!({"text": rest.clone()}));
+                    report(ctx, &rec, "total", &case, &Fail::new(&key, rest.clone()));
+                }
+            }
+            if !o.status.success() && !so.contains("ENUM-RUNAWAY") && !so.contains("ENUM-FAIL") {
+                let f = Fail::new("enum-child-died", format!("the child process decoding enumerated container headers died: {:?} {}", o.status, vcore::evidence::truncate(&String::from_utf8_lossy(&o.stderr), 400)));
+                report(ctx, &rec, "total", &json!({"probe": "enum"}), &f);
+            }
         }
     }
     let _ = TVal::Bool(true);
